@@ -3,6 +3,7 @@
 (* Every event carries the call and its projected result `out`; the result must be the one EnumLib demands      *)
 (* (switch set {}), or the one of exactly one deviation switch - then the deviation records itself in `devs`    *)
 (* (Dev_FloatTrunc, Dev_Mutable, Dev_PowMember, Dev_ReservedName) and the harness reports the trace unless an   *)
+(* (only Dev_Mutable is still open; the other three were repaired and are violations if they come back)        *)
 (* open finding carries that signature.  The registers follow the specification; a register whose enum was      *)
 (* successfully attacked (Dev_Mutable) is dropped (the harness does not use it any more).                       *)
 EXTENDS EnumLib, Json, IOUtils, TLCExt
